@@ -43,6 +43,17 @@ namespace smt
 
     size_t size() const noexcept { return n_vars; }
 
+#ifdef ORATIO_VERIF
+    struct verif_constraint
+    {
+      lit b; // the controlling literal of 'to - from <= dist'..
+      var from;
+      var to;
+      inf_rational dist;
+    };
+    SMT_EXPORT std::vector<verif_constraint> verif_constraints() const; // every distance constraint created so far..
+#endif
+
   private:
     bool propagate(const lit &p) noexcept override;
     bool check() noexcept override;
